@@ -37,12 +37,14 @@ check("C07", "model_checking",
       "same engine as C06; the oracle is on results: delivered objects are re-encoded and compared byte by byte with the objects "
       "the input was assembled from (order, exactly once, null only after the last), written files must equal the reference "
       "assembly, and every schedule must reproduce the observation of the default schedule (bound 1 on sessions of 1-4 objects, "
-      "bound 2 on 1-2/3 objects, static-priority/one-change family on sessions of 300 objects)",
+      "bound 2 on 1-2/3 objects, bound 1 with additional scheduling points right after every release, static-priority/one-change family on "
+      "sessions of 300 objects)",
       SCHED_NOTE, "stateless model checking (deviation-bounded DFS over a deterministic scheduler, real code)", "E1 vsched", "DESIGN.md C07")
 check("C11", "model_checking",
       "ThreadSanitizer's happens-before analysis on every explored schedule of read/write sessions (the scheduler's hand-offs are "
       "invisible to it) and AddressSanitizer with post-release scheduling points, where an access after hand-over is a "
-      "deterministic use-after-free because the application scribbles over and frees each object at once; bounds 1 and 2",
+      "deterministic use-after-free because the application scribbles over and frees each object at once; bounds 1 and 2; also write "
+      "sessions whose compression thread ends with an exception",
       SCHED_NOTE + "; TSan/ASan runtime correctness", "stateless model checking with sanitizer oracles (TSan + ASan under the scheduler)", "E1 vsched", "DESIGN.md C11")
 check("C12", "model_checking",
       "invariant (decoded container bytes <= buffer + 3 containers + largest object; queue <= capacity; no allocation above the cap) "
@@ -51,8 +53,9 @@ check("C12", "model_checking",
       SCHED_NOTE + "; heap accounted by replaced operator new/delete", "stateless model checking with a state invariant + exhaustive static-schedule family", "E1 vsched", "DESIGN.md C12")
 check("C15", "model_checking",
       "explicit-state breadth-first search over operation histories of the real UncompressedFile against a reference byte-queue "
-      "model: full alphabet to depth 6 (quick) / 8 (thorough), three usage-mode sub-alphabets to closure (arbitrarily long "
-      "sequences within 10-24 bytes); every transition runs the implementation",
+      "model: full alphabet to depth 7 (quick) / 8 (thorough), four usage-mode sub-alphabets to closure (arbitrarily long "
+      "sequences within 8-24 bytes; one moves the declared end into the data already written); every transition runs the implementation; "
+      "an operation that does not return is a violation of the history being replayed",
       "reference model written from the class documentation and test_UncompressedFile; behaviours the documentation leaves open are not demanded (listed in the evidence assumptions)",
       "explicit-state model checking (BFS with canonical state, model/implementation lock-step)", "E2 seqx", "DESIGN.md C15")
 check("C16", "model_checking",
@@ -64,10 +67,11 @@ check("C16", "model_checking",
 ENUM_NOTE = ("trusted: g++/clang, ASan/UBSan, the generated reflection (clang AST of File.h), the hand-written selector table and the "
              "argument that non-selector scalars are copied opaquely (small fill-pattern alphabet)")
 check("C01", "model_checking",
-      "bounded-exhaustive enumeration: every object of the universe U (8.8k objects: every class x selector values x payload lengths x "
-      "fill patterns) alone and all sequences of length <= 2 (3 on a sub-grid) over a 14-object alphabet, written and read back through "
+      "bounded-exhaustive enumeration: every object of the universe U (12k objects: every class x selector values incl. offsets at the natural trailer position x payload lengths x "
+      "fill patterns incl. strings with NUL bytes) alone and all sequences of length <= 2 (3 on a sub-grid) over a 15-object alphabet, written and read back through "
       "File for levels 0..9 x 18 container sizes x restore points on/off, each session under the scheduler's default schedule; objects "
-      "read back are compared field by field (generated reflection) with the codec-level decode; plus the codec round trip on all of U",
+      "read back are compared field by field (generated reflection) with the ORIGINAL object on every field the object serialises or its "
+      "layout variant must serialise (hand-written table); plus the codec round trip on all of U",
       ENUM_NOTE, "small-scope exhaustive enumeration with a differential/reflection oracle", "E3 enum", "DESIGN.md C01")
 check("C02", "model_checking",
       "all 517 object images of the reference logs and raw-object samples (114 types) and every derived image (every byte in "
@@ -75,27 +79,29 @@ check("C02", "model_checking",
       "with the same shape: decode->encode must reproduce it, recomputed fields excepted; under ASan+UBSan",
       ENUM_NOTE + "; the independent Python decoder cuts the images", "exhaustive enumeration of single-field mutations of reference images", "E3 enum", "DESIGN.md C02")
 check("C03", "model_checking",
-      "framing oracle on every object of U with a tracing in-memory stream (layout map): headerSize vs header bytes, objectSize vs emitted, "
+      "framing oracle on every object of U (incl. payloads longer than their 8/16-bit length field can say) with a tracing in-memory stream (layout map): headerSize vs header bytes, objectSize vs emitted, "
       "padding rule by type (set computed from the reference logs by the independent decoder), every length field vs payload emitted, "
       "decoding consumes exactly the emitted bytes; ASan+UBSan (no read outside the caller's containers)",
       ENUM_NOTE, "small-scope exhaustive enumeration with a layout-map oracle", "E3 enum", "DESIGN.md C03")
 check("C04", "model_checking",
-      "files written through File over the sequence x configuration grid (9.6k quick) are parsed by an independent stdlib-only Python "
+      "files written through File over the sequence x configuration grid (10k quick; alphabet incl. payloads of 5 containers + 3 bytes, one of "
+      "them incompressible) are parsed by an independent stdlib-only Python "
       "decoder that checks every clause of the container format and compares the concatenated payload with the objects' encodings",
       "trusted: CPython struct/zlib; the reading of '4-byte alignment' as the format's objectSize%4 padding rule", "exhaustive enumeration + independent decoder (differential)", "E3 enum + blfpy", "DESIGN.md C04")
 check("C05", "model_checking",
-      "header on disk vs an independent recomputation from the container walk for the grid x 5 caller-supplied header patterns; every "
+      "header on disk vs an independent recomputation from the container walk for the grid x 8 caller-supplied header patterns (before open(), after open(), after the last write); every "
       "written file and all 170 reference logs read completely through File and the reader's counters compared with the header",
       "trusted: CPython struct/zlib", "exhaustive enumeration + independent recomputation", "E3 enum + blfpy", "DESIGN.md C05")
 check("C08", "fault_enumeration",
       "every truncation offset of seed files for levels {0,1,6,9} x container sizes {32,100,default} x final/initial header x static "
-      "priority orders, each prefix read through File under the scheduler (ASan+UBSan); oracle from the container layout with the "
-      "padding ambiguity resolved permissively; monotonicity across offsets",
+      "priority orders, each prefix read through File under the scheduler (ASan+UBSan); oracle from the container layout by the declared sizes (alignment bytes belong "
+      "to neither container nor object): exactly the objects wholly inside completely stored containers; monotonicity across offsets",
       "seed files are the reference assembly, shown byte-identical to the library's output by C01/C04/C07", "exhaustive crash-point enumeration", "E4 fault", "DESIGN.md C08")
 check("C09", "model_checking",
       "all filler strings over {L,O,B,J,x} without the signature up to length 7/9 at every inter-object position, split into two "
-      "containers at every offset (fillers <= 3/4), unknown type codes x declared sizes x positions; the real decoding stage is driven "
-      "on a File whose stream the harness filled, a sample as complete File sessions",
+      "containers at every offset (fillers <= 3/4), unknown type codes x declared sizes {0,1,15,16..44,48,4096} x declared header size/version x "
+      "positions x split; the real decoding stage is driven on a File whose stream the harness filled; fillers and unknown objects straddling "
+      "containers (next container on demand) also as complete File sessions under the scheduler",
       "the resynchroniser distinguishes only the five symbols (4-byte window)", "exhaustive enumeration over a reduced alphabet", "E3 enum", "DESIGN.md C09")
 check("C10", "fault_enumeration",
       "complete mutation sets M1-M6 (byte and word substitutions, truncations, block deletion/duplication, the same on the re-packed "
@@ -103,19 +109,22 @@ check("C10", "fault_enumeration",
       "reference logs: 384k members (quick), each read through File under the scheduler with ASan+UBSan and a 256 MiB allocation cap",
       "sanitizers as oracle; deadlock/livelock exact under the scheduler; watchdog for CPU loops", "exhaustive fault enumeration (finite mutation sets)", "E4 fault", "DESIGN.md C10")
 check("C13", "model_checking",
-      "all call histories of a session grammar (length <= 12; 2.9k quick / 5.5k thorough) on files of {0,1,3,11,50} objects under the default "
-      "schedule and the 6 static priority orders, abandonment histories with every single deviation (pairs on the short ones), a sub-grid "
-      "under ASan; oracle: reference session machine for is_open/good/eof, counting destructors, live-allocation count, threads joined",
+      "all call histories of a session grammar (length <= 12; 3.9k quick / 6k thorough; incl. open again in either direction and a null pointer "
+      "passed to write()) on files of {0,1,3,11,50} objects under the default schedule and the 6 static priority orders, abandonment histories "
+      "with every single deviation (pairs on the short ones, queue capacity 1), the same with the stream buffer smaller than the file, a "
+      "sub-grid under ASan with post-release points; oracle: reference session machine for is_open/good/eof, counting destructors, live-allocation count, threads joined",
       SCHED_NOTE, "explicit enumeration of operation histories x stateless schedule exploration", "E1 vsched + E2", "DESIGN.md C13")
 check("C14", "model_checking",
-      "file bytes identical across 5 heap poison patterns (24k sessions each), the same session twice in one process, across all schedules "
-      "with one deviation of write sessions ending on/off container boundaries, encodings identical across g++ / clang auto-init-zero / "
+      "file bytes identical across 5 heap poison patterns (24k sessions each), the same session twice in one process and again after different "
+      "earlier sessions (reversed order, other split), across all schedules with one deviation of write sessions ending on/off container "
+      "boundaries with padded and unpadded objects, encodings identical across g++ / clang auto-init-zero / "
       "auto-init-pattern builds, filler bytes zero in every encoding of U",
       ENUM_NOTE, "exhaustive enumeration with differential comparison across environments", "E3 enum + E1", "DESIGN.md C14")
 check("C17", "model_checking",
       "factory probed for all codes 0..255 and boundary 32-bit codes against the class File.h's include list assigns; every class "
       "default-constructed into memory pre-filled with {00,ff,aa,55}: all reflected fields and the encoding identical, constructor "
-      "code maps back to the class, written and read back under that code",
+      "code maps back to the class, written and read back under that code (codec level, consuming exactly the bytes written, and alone "
+      "through File)",
       ENUM_NOTE, "exhaustive enumeration", "E3 enum", "DESIGN.md C17")
 
 
